@@ -40,7 +40,8 @@ type DB struct {
 	// After is called when the inner call returned.
 	After   func(c *Call, err error)
 	mu      sync.Mutex
-	N       int64 // number of calls that reached the store
+	N       int64           // number of calls that reached the store
+	ByG     map[int64]int64 // the same per calling goroutine
 	Log     []string
 	KeepLog bool
 }
@@ -54,8 +55,13 @@ func (d *DB) pre(name string, args ...any) (*Call, error) {
 			return c, err
 		}
 	}
+	g := GID()
 	d.mu.Lock()
 	d.N++
+	if d.ByG == nil {
+		d.ByG = map[int64]int64{}
+	}
+	d.ByG[g]++
 	if d.KeepLog {
 		d.Log = append(d.Log, name)
 	}
@@ -70,6 +76,14 @@ func (d *DB) post(c *Call, err error) {
 }
 
 func (d *DB) Calls() int64 { d.mu.Lock(); defer d.mu.Unlock(); return d.N }
+
+// CallsByMe counts the store calls made by the calling goroutine.
+func (d *DB) CallsByMe() int64 {
+	g := GID()
+	d.mu.Lock()
+	defer d.mu.Unlock()
+	return d.ByG[g]
+}
 
 func (d *DB) SaveSeed(a []byte) error {
 	c, err := d.pre("SaveSeed")
